@@ -16,8 +16,11 @@ VERIF = os.path.dirname(os.path.dirname(os.path.abspath(__file__)))
 GROUPS = {
     'hll': ('pocket-types', [('hll8.rs', 'pocket-types/src/hll8.rs')],
             ['merge_is_registerwise_max', 'merge_commutative', 'merge_associative', 'merge_idempotent',
-             'add_element_contract', 'add_element_idempotent_and_order_independent', 'add_distributes_over_merge',
-             'new_and_clear_are_empty'], []),
+             'new_and_clear_are_empty', 'add_element_rho_semantics', 'add_element_is_max_with_singleton',
+             'add_element_err_iff_offset_out_of_range'], []),
+    # slow direct checks (minutes): thorough tier only
+    'hll_slow': ('pocket-types', [('hll8.rs', 'pocket-types/src/hll8.rs')],
+            ['add_distributes_over_merge', 'add_element_idempotent_and_order_independent'], []),
 }
 # harnesses whose loops depend on input length: reported as bounded(n), never counted as proved
 BOUNDED = {}
@@ -76,9 +79,9 @@ def run_group(group, repo, tier='quick', harness_filter=None):
             cmd2 = base + ['-Z', 'concrete-playback', '--concrete-playback=print', '--harness', h['harness']]
             p2 = subprocess.run(cmd2, cwd=ws, capture_output=True, text=True, env=env, timeout=1800)
             o2 = p2.stdout + '\n' + p2.stderr
-            mpb = re.search(r'```(?:rust)?\s*(#\[test\].*?)```', o2, re.S)
+            mpb = re.search(r'Concrete playback unit test for[^\n]*\n```\n(.*?)```', o2, re.S)
             if mpb:
-                h['replay'] = {'kani_concrete_playback_test': mpb.group(1).strip(),
+                h['replay'] = {'group': group, 'harness': h['harness'], 'kani_concrete_playback_test': mpb.group(1).strip(),
                                'how_to_replay': 'append the test to the harness module of the woven copy and run `cargo kani playback -Z concrete-playback -- <test name>` (./check replay does this)'}
     except subprocess.TimeoutExpired:
         res['status'] = 'undecided'
@@ -91,9 +94,18 @@ def run_group(group, repo, tier='quick', harness_filter=None):
 
 def parse(out, harnesses, res):
     # split per harness
-    blocks = re.split(r'(?m)^Checking harness ', out)
+    # -j mode: "Thread N: Checking harness X..." then result blocks headed "Thread N:"
+    tmap = dict((t, n.split('::')[-1]) for t, n in re.findall(r'(?m)^Thread (\d+): Checking harness ([\w:]+)\.\.\.', out))
+    blocks = []
+    if tmap:
+        parts = re.split(r'(?m)^Thread (\d+): *$', out)
+        for i in range(1, len(parts) - 1, 2):
+            if parts[i] in tmap:
+                blocks.append(tmap[parts[i]] + '...' + parts[i + 1])
+    else:
+        blocks = re.split(r'(?m)^Checking harness ', out)[1:]
     seen = {}
-    for b in blocks[1:]:
+    for b in blocks:
         name = b.split('...')[0].strip().split('::')[-1]
         status = None
         m = re.search(r'VERIFICATION:- (SUCCESSFUL|FAILED)', b)
@@ -112,6 +124,10 @@ def parse(out, harnesses, res):
             h['seconds'] = float(mt.group(1))
         seen[name] = h
         res['harnesses'].append(h)
+        if status == 'FAILED' and ('CBMC failed' in b or 'out of memory' in b or 'timed out' in b.lower()):
+            res['status'] = 'undecided'
+            res['reason'] += ' %s: CBMC resource limit (out of memory / killed);' % name
+            continue
         if status == 'FAILED':
             if undet and failed_checks == 0:
                 res['status'] = 'undecided'
@@ -142,6 +158,29 @@ def parse(out, harnesses, res):
 
 def ce_search(fn, repo):
     return None
+
+
+def playback(group, test_src, repo):
+    """Replays a Kani counterexample on the real code: the generated unit test (concrete byte values for every kani::any)
+    is appended to the harness module of a freshly woven copy of `repo` and executed with `cargo kani playback`."""
+    d, ws = weave_copy(repo, group)
+    try:
+        pkg, files, harnesses, extra = GROUPS[group]
+        target = os.path.join(ws, files[0][1])
+        s = open(target).read()
+        k = s.rindex('}')
+        s = s[:k] + '\n' + test_src + '\n}\n'
+        open(target, 'w').write(s)
+        name = re.search(r'fn (kani_concrete_playback_\w+)', test_src).group(1)
+        env = dict(os.environ, CARGO_NET_OFFLINE='true')
+        p = subprocess.run(['cargo', 'kani', 'playback', '-Z', 'concrete-playback', '-p', pkg, '--', name],
+                           cwd=ws, capture_output=True, text=True, env=env, timeout=1800)
+        out = p.stdout + '\n' + p.stderr
+        failed = ('test result: FAILED' in out) or ('panicked at' in out)
+        passed = 'test result: ok. 1 passed' in out
+        return {'test': name, 'reproduced': failed and not passed, 'output_tail': out[-1500:]}
+    finally:
+        shutil.rmtree(d, ignore_errors=True)
 
 
 if __name__ == '__main__':
